@@ -194,6 +194,29 @@ class Engine:
             self.slowlog("slow query %.1fs -> %s (%d constraints)" % (dt, r, len(cons)))
         self.res.queries += 1
         rs = str(r)
+        if rs == "unknown":
+            # z3's answer depends on term order and on the solver it picks: retry the same formula re-read from its
+            # SMT-LIB text (fresh solver state), then with the QF_NRA strategy; an answer from either is an answer
+            try:
+                txt = s.to_smt2()
+                fs = z3.parse_smt2_string(txt)
+                for mk in (z3.Solver, lambda: z3.SolverFor("QF_NRA")):
+                    s2 = mk()
+                    s2.set("timeout", self.timeout_ms)
+                    s2.add(fs)
+                    t = time.time()
+                    r2 = s2.check()
+                    self.res.solver_s += time.time() - t
+                    self.res.queries += 1
+                    if str(r2) != "unknown":
+                        rs, s = str(r2), s2
+                        self.res.retried = getattr(self.res, "retried", 0) + 1
+                        break
+            except z3.Z3Exception:
+                pass
+        if rs == "unknown" and os.environ.get("VF_DUMP_UNKNOWN"):
+            self.dumped = getattr(self, "dumped", 0) + 1
+            open(os.path.join(os.environ["VF_DUMP_UNKNOWN"], "unknown_%d.smt2" % self.dumped), "w").write(s.to_smt2())
         # the cached entry keeps its ASTs alive: z3 recycles the ids of dead ASTs, which would alias keys
         self.cache[key] = (rs, cons)
         return rs, (s.model() if want_model and rs == "sat" else None)
